@@ -57,10 +57,18 @@ type reg struct {
 	keys map[string]map[string]*kref // kind -> raw -> ref
 	vals map[string]int
 	cdc  codec.Codec
+	dgp  map[int]devgastypes.ModuleParams // every x/devgas params value seen (by id)
 }
 
 func newReg(cdc codec.Codec) *reg {
-	return &reg{keys: map[string]map[string]*kref{}, vals: map[string]int{}, cdc: cdc}
+	return &reg{keys: map[string]map[string]*kref{}, vals: map[string]int{}, cdc: cdc, dgp: map[int]devgastypes.ModuleParams{}}
+}
+
+// DGP: id of an x/devgas params value (remembered for the validity / sanitising tables)
+func (r *reg) DGP(p devgastypes.ModuleParams) int {
+	id := r.P(&p)
+	r.dgp[id] = p
+	return id
 }
 
 // K: key of a kind ("a" address bytes, "s" string, "h" 32-byte hash / id bytes)
@@ -330,7 +338,7 @@ func dumpState(ctx sdk.Context, a *app.NibiruApp, r *reg) map[string]interface{}
 	{
 		raw := rawStore(ctx, a, "devgas")
 		p, _ := a.DevGasKeeper.ModuleParams.Get(ctx)
-		dg := map[string]interface{}{"params": r.P(&p)}
+		dg := map[string]interface{}{"params": r.DGP(p)}
 		sh := J{}
 		it := a.DevGasKeeper.DevGasStore.Iterate(ctx, collections.Range[string]{})
 		for ; it.Valid(); it.Next() {
@@ -532,8 +540,7 @@ func parseExport(appState []byte, cdc codec.Codec, r *reg) (map[string]interface
 			v := v
 			sh = append(sh, J{r.S(v.ContractAddress), r.S(v.DeployerAddress), r.S(v.WithdrawerAddress), r.P(&v)})
 		}
-		san := s.Params.Sanitize()
-		out["devgas"] = map[string]interface{}{"params": r.P(&s.Params), "params_sanitized": r.P(&san), "shares": sh}
+		out["devgas"] = map[string]interface{}{"params": r.DGP(s.Params), "shares": sh}
 	}
 	{
 		var s evm.GenesisState
@@ -599,7 +606,41 @@ func tables(e1, e2 map[string]interface{}, s1, s2 map[string]interface{}, r *reg
 		}
 		pj = append(pj, J{r.S(d), r.S(back.String())})
 	}
-	return map[string]interface{}{"tfparse": tfp, "empty_code": r.V("code:"), "pairjson": pj}
+	// bech32 account addresses among the strings: which parse (sdk.AccAddressFromBech32; "" does not), and the
+	// canonical string their bytes are re-encoded to (what the devgas handlers store)
+	okSet := map[string]bool{}
+	canon := J{}
+	for _, d := range denoms {
+		a, err := sdk.AccAddressFromBech32(d)
+		if err != nil {
+			continue
+		}
+		okSet[d] = true
+		okSet[a.String()] = true
+		canon = append(canon, J{r.S(d), r.S(a.String())})
+	}
+	var oks []string
+	for d := range okSet {
+		oks = append(oks, d)
+	}
+	sort.Strings(oks)
+	addrOk := J{}
+	for _, d := range oks {
+		addrOk = append(addrOk, r.S(d))
+	}
+	// x/devgas params: Validate passes, EnableFeeShare, Sanitize
+	var pids []int
+	for id := range r.dgp {
+		pids = append(pids, id)
+	}
+	sort.Ints(pids)
+	dgp := J{}
+	for _, id := range pids {
+		p := r.dgp[id]
+		san := p.Sanitize()
+		dgp = append(dgp, J{id, b01(p.Validate() == nil), b01(p.EnableFeeShare), r.P(&san)})
+	}
+	return map[string]interface{}{"tfparse": tfp, "empty_code": r.V("code:"), "pairjson": pj, "addr_ok": addrOk, "canon": canon, "dgparams": dgp}
 }
 
 // ---------------------------------------------------------------- sampled queries
